@@ -95,7 +95,7 @@ type simPeer struct {
 	sessEnd    map[int]time.Duration     // session number -> instant this side saw it end
 	eorSent    map[wFamily]time.Duration // End-of-RIB markers this peer sent on the current session
 	limitMaybe int                       // limit trips whose NOTIFICATION may or may not get through (stalled neighbour)
-	ending     bool // the session is being ended by the neighbour itself or by the operator
+	ending     bool                      // the session is being ended by the neighbour itself or by the operator
 	stalled    bool                      // the neighbour's receive window is full (stall fault)
 	limitHit   bool                      // the model says this session exceeded the configured prefix limit
 	limitTrips int                       // sessions so far that exceeded it
